@@ -81,6 +81,9 @@ fn hostile_det_spec(rng: &mut Prng) -> Spec {
         })
         .collect();
     maybe_long_haul(rng, &mut spec.ops, 60);
+    if spec.core.is_none() && rng.chance(1, 25) && make_zero_word_run(rng, &mut spec, true) {
+        spec.variant = "hostile_det_zero_word_state".into();
+    }
     spec
 }
 
